@@ -701,4 +701,41 @@ def runD {Out : Type} (guard : DerivedGuard) (f : Val → Out) (st : DState Out)
 
 def derivedOK (s : DerivedStore) : Bool := s.guard == .always
 
+/-! ## (f) values a getter keeps between calls -/
+
+/-- a getter called with named arguments keeps one result together with the values of the
+    arguments it is keyed on; `reset` is what `add_…` methods do -/
+inductive GOp where
+  | call (args : List (String × Val))
+  | reset
+  deriving Repr
+
+structure GState (Out : Type) where
+  kept : Option (List Val × Out)
+
+def gArg (args : List (String × Val)) (a : String) : Val := (args.lookup a).getD 0
+
+def stepG {Out : Type} (keyed : List String) (f : (String → Val) → Out) (st : GState Out) :
+    GOp → GState Out × Option Out
+  | .reset => ({ kept := none }, none)
+  | .call args =>
+    let k := keyed.map (gArg args)
+    match st.kept with
+    | some (k', out) =>
+      if k' = k then (st, some out)
+      else ({ kept := some (k, f (gArg args)) }, some (f (gArg args)))
+    | none => ({ kept := some (k, f (gArg args)) }, some (f (gArg args)))
+
+def runG {Out : Type} (keyed : List String) (f : (String → Val) → Out) (st : GState Out) :
+    List GOp → GState Out
+  | [] => st
+  | op :: ops => runG keyed f (stepG keyed f st op).1 ops
+
+def outsG {Out : Type} (keyed : List String) (f : (String → Val) → Out) (st : GState Out) :
+    List GOp → List (Option Out)
+  | [] => []
+  | op :: ops => (stepG keyed f st op).2 :: outsG keyed f (stepG keyed f st op).1 ops
+
+def getterOK (s : GetterStore) : Bool := s.used.all (fun a => s.keyedOn.contains a)
+
 end OQuPyVerif.Aliasing
